@@ -220,6 +220,12 @@ func (a *Agent) Status() *model.Status {
 		// Match the status to the execution graph.
 		schedulerStatus = scheduler.StatusRunning
 	}
+	if schedulerStatus == scheduler.StatusSuccess && !a.graph.IsFinished() {
+		// No step is running at this instant, but steps (or handlers) may
+		// still be waiting to be launched: the run has not succeeded until
+		// the scheduler has returned.
+		schedulerStatus = scheduler.StatusRunning
+	}
 
 	// Create the status object to record the current status.
 	status := &model.Status{
